@@ -245,6 +245,41 @@ where
     }
 }
 
+fn msg_with<T>(name: &str, digest: fn(&T) -> u64) -> Entry
+where
+    T: for<'b> minicbor::Decode<'b, ()> + 'static,
+{
+    Entry {
+        name: name.to_string(),
+        call: Box::new(move |i, cheap| run2(i, |i| minicbor::decode::<T>(i), |v| if cheap { 1 } else { digest(v) })),
+    }
+}
+
+/// Handshake version tables are `HashMap`s: their Debug order is random per
+/// map instance, so they are rendered sorted (determinism of the digests).
+macro_rules! hs_digest {
+    ($name:ident, $($hs:tt)+) => {
+        fn $name<D: Debug + Clone>(m: &$($hs)+::Message<D>) -> u64 {
+            use $($hs)+ as hs;
+            let mut h = Fnv::new();
+            match m {
+                hs::Message::Propose(t) | hs::Message::QueryReply(t) => {
+                    let _ = write!(h, "{}", if matches!(m, hs::Message::Propose(_)) { "Propose" } else { "QueryReply" });
+                    let mut v: Vec<(&u64, &D)> = t.values.iter().collect();
+                    v.sort_by_key(|x| *x.0);
+                    let _ = write!(h, "{v:?}");
+                }
+                other => {
+                    let _ = write!(h, "{other:?}");
+                }
+            }
+            h.0
+        }
+    };
+}
+hs_digest!(hs1_digest, pallas_network::miniprotocols::handshake);
+hs_digest!(hs2_digest, pallas_network2::protocol::handshake);
+
 fn from_payload(name: &str, channel: u16) -> Entry {
     use pallas_network2::behavior::AnyMessage;
     use pallas_network2::Message;
@@ -255,7 +290,11 @@ fn from_payload(name: &str, channel: u16) -> Entry {
             match catch(|| AnyMessage::from_payload(channel, &mut payload)) {
                 Err(p) => CallOut { res: Res::Panic(p.into()), accessor_panic: None },
                 Ok(None) => CallOut { res: err_res(format!("None, {} bytes left", payload.len())), accessor_panic: None },
-                Ok(Some(m)) => match catch(|| if cheap { 1 } else { debug_hash(&m) }) {
+                Ok(Some(m)) => match catch(|| match &m {
+                    _ if cheap => 1,
+                    AnyMessage::Handshake(x) => hs2_digest(x),
+                    other => debug_hash(other),
+                }) {
                     Ok(d) => CallOut { res: Res::Ok(d ^ (payload.len() as u64).wrapping_mul(0x9e37_79b9_7f4a_7c15)), accessor_panic: None },
                     Err(p) => CallOut { res: Res::Ok(u64::MAX), accessor_panic: Some(p.into()) },
                 },
@@ -353,8 +392,8 @@ pub fn catalogue() -> Vec<Entry> {
             txsubmission as txs, Point,
         };
         const S: &str = "pallas-network";
-        v.push(msg::<hs::Message<hs::n2n::VersionData>>(&format!("{S}/handshake-n2n")));
-        v.push(msg::<hs::Message<hs::n2c::VersionData>>(&format!("{S}/handshake-n2c")));
+        v.push(msg_with::<hs::Message<hs::n2n::VersionData>>(&format!("{S}/handshake-n2n"), hs1_digest));
+        v.push(msg_with::<hs::Message<hs::n2c::VersionData>>(&format!("{S}/handshake-n2c"), hs1_digest));
         v.push(msg::<cs::Message<cs::HeaderContent>>(&format!("{S}/chainsync-n2n")));
         v.push(msg::<cs::Message<cs::BlockContent>>(&format!("{S}/chainsync-n2c")));
         v.push(msg::<cs::Message<cs::SkippedContent>>(&format!("{S}/chainsync-skip")));
@@ -374,13 +413,43 @@ pub fn catalogue() -> Vec<Entry> {
         v.push(msg::<Point>(&format!("{S}/localstate:Point")));
         v.push(msg::<q16::UTxOByAddress>(&format!("{S}/localstate:queries_v16::UTxOByAddress")));
         v.push(msg::<q16::Constitution>(&format!("{S}/localstate:queries_v16::Constitution")));
+        // every other typed result of the queries_v16 client helpers (`get_*`)
+        use pallas_codec::utils::{AnyCbor, Bytes, TagWrap};
+        use pallas_network::miniprotocols::localtxsubmission::SMaybe;
+        use std::collections::BTreeMap;
+        v.push(msg::<q16::StakeSnapshots>(&format!("{S}/localstate:queries_v16::StakeSnapshots")));
+        v.push(msg::<BTreeMap<Bytes, q16::PoolParams>>(&format!("{S}/localstate:BTreeMap<Bytes, queries_v16::PoolParams>")));
+        v.push(msg::<q16::PState>(&format!("{S}/localstate:queries_v16::PState")));
+        v.push(msg::<q16::PoolDistr>(&format!("{S}/localstate:queries_v16::PoolDistr")));
+        v.push(msg::<q16::NonMyopicMemberRewards>(&format!("{S}/localstate:queries_v16::NonMyopicMemberRewards")));
+        v.push(msg::<q16::FilteredDelegsRewards>(&format!("{S}/localstate:queries_v16::FilteredDelegsRewards")));
+        v.push(msg::<q16::UTxOByTxin>(&format!("{S}/localstate:queries_v16::UTxOByTxin")));
+        v.push(msg::<BTreeMap<q16::StakeAddr, q16::Coin>>(&format!("{S}/localstate:BTreeMap<StakeAddr, Coin>")));
+        v.push(msg::<BTreeMap<q16::StakeAddr, q16::DRepState>>(&format!("{S}/localstate:BTreeMap<StakeAddr, queries_v16::DRepState>")));
+        v.push(msg::<BTreeMap<q16::DRep, q16::Coin>>(&format!("{S}/localstate:BTreeMap<queries_v16::DRep, Coin>")));
+        v.push(msg::<BTreeMap<q16::StakeAddr, q16::DRep>>(&format!("{S}/localstate:BTreeMap<StakeAddr, queries_v16::DRep>")));
+        v.push(msg::<BTreeMap<q16::Addr, q16::Coin>>(&format!("{S}/localstate:BTreeMap<Addr, Coin>")));
+        v.push(msg::<Vec<q16::GovActionState>>(&format!("{S}/localstate:Vec<queries_v16::GovActionState>")));
+        v.push(msg::<q16::CommitteeMembersState>(&format!("{S}/localstate:queries_v16::CommitteeMembersState")));
+        v.push(msg::<q16::ProtocolParam>(&format!("{S}/localstate:queries_v16::ProtocolParam")));
+        v.push(msg::<u32>(&format!("{S}/localstate:u32")));
+        v.push(msg::<q16::StakeDistribution>(&format!("{S}/localstate:queries_v16::StakeDistribution")));
+        v.push(msg::<q16::GenesisConfig>(&format!("{S}/localstate:queries_v16::GenesisConfig")));
+        v.push(msg::<q16::UTxOWhole>(&format!("{S}/localstate:queries_v16::UTxOWhole")));
+        v.push(msg::<q16::GovState>(&format!("{S}/localstate:queries_v16::GovState")));
+        v.push(msg::<q16::AccountState>(&format!("{S}/localstate:queries_v16::AccountState")));
+        v.push(msg::<SMaybe<q16::ProtocolParam>>(&format!("{S}/localstate:SMaybe<queries_v16::ProtocolParam>")));
+        v.push(msg::<q16::RatifyState>(&format!("{S}/localstate:queries_v16::RatifyState")));
+        v.push(msg::<q16::ProposedPPUpdates>(&format!("{S}/localstate:queries_v16::ProposedPPUpdates")));
+        v.push(msg::<Vec<TagWrap<Bytes, 24>>>(&format!("{S}/localstate:Vec<TagWrap<Bytes, 24>>")));
+        v.push(msg::<AnyCbor>(&format!("{S}/localstate:AnyCbor")));
     }
     // ---- pallas-network2 messages
     {
         use pallas_network2::protocol::{blockfetch as bf, chainsync as cs, handshake as hs, keepalive as ka, leiosfetch as lf, leiosnotify as ln, peersharing as ps, txsubmission as txs};
         const S: &str = "pallas-network2";
-        v.push(msg::<hs::Message<hs::n2n::VersionData>>(&format!("{S}/handshake-n2n")));
-        v.push(msg::<hs::Message<hs::n2c::VersionData>>(&format!("{S}/handshake-n2c")));
+        v.push(msg_with::<hs::Message<hs::n2n::VersionData>>(&format!("{S}/handshake-n2n"), hs2_digest));
+        v.push(msg_with::<hs::Message<hs::n2c::VersionData>>(&format!("{S}/handshake-n2c"), hs2_digest));
         v.push(msg::<cs::Message<cs::HeaderContent>>(&format!("{S}/chainsync-n2n")));
         v.push(msg::<cs::Message<cs::BlockContent>>(&format!("{S}/chainsync-n2c")));
         v.push(msg::<cs::Message<cs::SkippedContent>>(&format!("{S}/chainsync-skip")));
